@@ -32,6 +32,18 @@ CHECKS = {
  "C10": ("deterministic simulation with byzantine proposers/peers: forbidden vertices through every entry point + snapshot scan",
          "Self-sealed, genesis-issued and empty transactions are offered by proposal (notary and ledger API), by gossip from an adversarial sealing key, and via the orphan path; no snapshot may contain them.",
          "", "5 C10"),
+ "C04": ("deterministic simulation with an in-flight corruption fault: seeded mutations (41 classes) of freshly sealed valid vertices delivered to real nodes, genuine copy before/after/never",
+         "Every delivered mutant whose decoded content differs from the genuine vertex must be refused by the gossip-add entry point, must leave the ledger unchanged and must never appear in a later snapshot; the genuine copy must still be admitted afterwards; about 60 corrupted or malformed addresses per wallet must resolve to an error or the same key. Three admitted classes are recorded known findings.",
+         "the quantifier is over inputs; the simulator contributes the stateful context (genuine copy admitted, parked, or arriving later) ", "5 C04"),
+ "C17": ("deterministic simulation, fine mode: 2-5 client tasks interleaved at every bigcache call of the real cache + map model at quiescence + porcupine linearizability on short histories; sequential sequences with clock advances step by step",
+         "The real Hippocampus on real bigcache is driven by seeded sequential sequences (compared with a map model after every operation, with the expiry window read from the code) and by concurrent client tasks whose interleaving at every cache call is chosen by the seed; listings at quiescence must equal saves minus removals, and histories of up to 14 operations must be linearizable.",
+         "bigcache itself is not instrumented; expiry comparisons allow the documented slack", "5 C17"),
+ "C19": ("deterministic simulation with clock-jump faults for encoder timestamps + seeded boundary product of field values through every crossing (wire, storage, cache)",
+         "Vertices are created by the real constructors after the simulated clock jumped to the msgpack timestamp switch points; 40 constructed boundary vertices per run cover lengths 0..65536, integers at 2^7..2^64, non-UTF-8 text and timestamps a forward clock cannot reach; every crossing must preserve every signed field and the verification verdict.",
+         "constructed boundary values are input enumeration, labelled as such; the crossings also run inside every net-sim run", "5 C19"),
+ "C20": ("disk-fault enumeration on the wallet file between SaveWallet and ReadWallet: every torn-write length, every single-byte corruption with every value, wrong and illegal keys, stale file",
+         "Per seeded wallet and key the fault positions are enumerated exhaustively: every prefix length of the file, every byte position set to each of the 255 other values, 40 wrong keys (incl. one-bit neighbours), 8 illegal key lengths, another wallet's file; the result must be the identical wallet for the untouched file and an error otherwise, never a panic.",
+         "wallets and keys are sampled from the seed; fault positions per wallet are exhaustive", "5 C20"),
 }
 
 NOT_YET = {}
